@@ -3,6 +3,7 @@ package converters
 import (
 	"archive/tar"
 	"encoding/json"
+	"time"
 
 	models "github.com/pojntfx/stfs/internal/db/sqlite/models/metadata"
 	"github.com/pojntfx/stfs/pkg/config"
@@ -97,6 +98,13 @@ func TarHeaderToDBHeader(record, lastKnownRecord, block, lastKnownBlock int64, t
 		return nil, err
 	}
 
+	// A header without a modification time is written to the tape with the Unix epoch as modification time, so that
+	// is what an index rebuilt from the tape holds; hold the same if the header comes from a running operation
+	modTime := tarhdr.ModTime
+	if modTime.IsZero() {
+		modTime = time.Unix(0, 0)
+	}
+
 	hdr := models.Header{
 		Record:          record,
 		Lastknownrecord: lastKnownRecord,
@@ -111,7 +119,7 @@ func TarHeaderToDBHeader(record, lastKnownRecord, block, lastKnownBlock int64, t
 		Gid:             int64(tarhdr.Gid),
 		Uname:           tarhdr.Uname,
 		Gname:           tarhdr.Gname,
-		Modtime:         tarhdr.ModTime,
+		Modtime:         modTime,
 		Accesstime:      tarhdr.AccessTime,
 		Changetime:      tarhdr.ChangeTime,
 		Devmajor:        tarhdr.Devmajor,
